@@ -1,0 +1,28 @@
+//go:build verif
+
+package csm
+
+// Verification hooks (build tag "verif"): thin read-only wrappers over
+// unexported helpers, used by the correspondence harness under /verif.
+
+// VerifLastDayOfMonth exposes lastDayOfMonth.
+func VerifLastDayOfMonth(year, month int) int { return lastDayOfMonth(year, month) }
+
+// VerifClosestWeekday exposes closestWeekday for the given date.
+func VerifClosestWeekday(year, month, day int) int {
+	return closestWeekday(makeDateTime(year, month, day))
+}
+
+// VerifWeekday returns the weekday (0 = Sunday) of the given date.
+func VerifWeekday(year, month, day int) int {
+	return int(makeDateTime(year, month, day).Weekday())
+}
+
+// VerifDayN exposes DayNode.dayN.
+func (n *DayNode) VerifDayN() (int, bool) { return n.dayN() }
+
+// VerifIsValid exposes DayNode.isValid.
+func (n *DayNode) VerifIsValid() bool { return n.isValid() }
+
+// VerifExpired reports whether the last search ran out of valid years.
+func (csm *CronStateMachine) VerifExpired() bool { return csm.expired }
